@@ -42,6 +42,36 @@ structure TextPos where
   loc : LocSpec
   classes : List Str
 
+/-- how `text-offset` moves the anchor: inward for text inside a shape, outward for lines / points /
+    text elements and `d-text-outside` -/
+def offsetDelta (loc : LocSpec) (outside : Bool) (offset : Rat) : Rat × Rat :=
+  let dy := if loc.is_top then (if outside then -offset else offset)
+    else if loc.is_bottom then (if outside then offset else -offset) else 0
+  let dx := if loc.is_left then (if outside then -offset else offset)
+    else if loc.is_right then (if outside then offset else -offset) else 0
+  (dx, dy)
+
+/-- alignment classes matching the anchor -/
+def anchorClasses (loc : LocSpec) (outside vertical : Bool) : List Str :=
+  (if loc.is_top then
+    [match outside, vertical with
+      | false, false => cs!"d-text-top" | true, false => cs!"d-text-bottom"
+      | false, true => cs!"d-text-top-vertical" | true, true => cs!"d-text-bottom-vertical"]
+   else if loc.is_bottom then
+    [match outside, vertical with
+      | false, false => cs!"d-text-bottom" | true, false => cs!"d-text-top"
+      | false, true => cs!"d-text-bottom-vertical" | true, true => cs!"d-text-top-vertical"]
+   else []) ++
+  (if loc.is_left then
+    [match outside, vertical with
+      | false, false => cs!"d-text-left" | true, false => cs!"d-text-right"
+      | false, true => cs!"d-text-left-vertical" | true, true => cs!"d-text-right-vertical"]
+   else if loc.is_right then
+    [match outside, vertical with
+      | false, false => cs!"d-text-right" | true, false => cs!"d-text-left"
+      | false, true => cs!"d-text-right-vertical" | true, true => cs!"d-text-left-vertical"]
+   else [])
+
 /-- `get_text_position`; returns the element with the text attributes popped -/
 def textPosition (e : Elem) : Except Err (Elem × TextPos) := do
   let (e, dx) := e.popAttr cs!"text-dx"
@@ -73,31 +103,10 @@ def textPosition (e : Elem) : Except Err (Elem × TextPos) := do
   let e := { e with classes := cls2 }
   let outside := if hadOut then true else if hadIn then false
     else (e.name == cs!"line" || e.name == cs!"point" || e.name == cs!"text")
-  let tc : List Str := [cs!"d-text"]
-  let (tc, tdy) :=
-    if loc.is_top then
-      (tc ++ [match outside, vertical with
-        | false, false => cs!"d-text-top" | true, false => cs!"d-text-bottom"
-        | false, true => cs!"d-text-top-vertical" | true, true => cs!"d-text-bottom-vertical"],
-       tdy + (if outside then -offset else offset))
-    else if loc.is_bottom then
-      (tc ++ [match outside, vertical with
-        | false, false => cs!"d-text-bottom" | true, false => cs!"d-text-top"
-        | false, true => cs!"d-text-bottom-vertical" | true, true => cs!"d-text-top-vertical"],
-       tdy + (if outside then offset else -offset))
-    else (tc, tdy)
-  let (tc, tdx) :=
-    if loc.is_left then
-      (tc ++ [match outside, vertical with
-        | false, false => cs!"d-text-left" | true, false => cs!"d-text-right"
-        | false, true => cs!"d-text-left-vertical" | true, true => cs!"d-text-right-vertical"],
-       tdx + (if outside then -offset else offset))
-    else if loc.is_right then
-      (tc ++ [match outside, vertical with
-        | false, false => cs!"d-text-right" | true, false => cs!"d-text-left"
-        | false, true => cs!"d-text-right-vertical" | true, true => cs!"d-text-left-vertical"],
-       tdx + (if outside then offset else -offset))
-    else (tc, tdx)
+  let tc : List Str := [cs!"d-text"] ++ anchorClasses loc outside vertical
+  let (ox, oy) := offsetDelta loc outside offset
+  let tdx := tdx + ox
+  let tdy := tdy + oy
   match ← e.bbox with
   | none => throw Err.missingBBox
   | some bb =>
@@ -119,6 +128,13 @@ def firstLineOffset (outside vertical : Bool) (loc : LocSpec) (count : Nat) (spa
   | false, true => if loc.is_left then down else if loc.is_right then up else mid
   | true, false => if loc.is_top then up else if loc.is_bottom then down else mid
   | true, true => if loc.is_left then up else if loc.is_right then down else mid
+
+/-- character data of the tspans: one per line (reversed for vertical text); blanks become no-break
+    spaces for `d-text-pre`; an empty line is a zero-width space so that it still takes a line -/
+def spanContents (pre vertical : Bool) (ls : List Str) : List Str :=
+  (if vertical then ls.reverse else ls).map fun frag =>
+    let frag := if pre then frag.map (fun c => if c == ' ' then nbsp else c) else frag
+    if frag.isEmpty then zwsp else frag
 
 /-- a generated text / tspan element with its character data -/
 structure TextEl where
@@ -168,12 +184,10 @@ def processTextAttr (e : Elem) : Except Err (Elem × List TextEl) := do
       | some s => tspan0.setAttr cs!"style" s
       | none => tspan0
     let tspan0 := if vertical then tspan0.setAttr ['y'] ys else tspan0.setAttr ['x'] xs
-    let ordered := if vertical then ls.reverse else ls
-    let spans := ordered.zipIdx.map fun (frag, idx) =>
+    let spans := (spanContents pre vertical ls).zipIdx.map fun (content, idx) =>
       let off := if idx == 0 then firstLineOffset pos.outside vertical pos.loc ls.length spacing else spacing
-      let frag := if pre then frag.map (fun c => if c == ' ' then nbsp else c) else frag
       let t := tspan0.setAttr (if vertical then cs!"dx" else cs!"dy") (fstr off ++ cs!"em")
-      (⟨t, if frag.isEmpty then zwsp else frag⟩ : TextEl)
+      (⟨t, content⟩ : TextEl)
     pure (orig, main :: spans)
 
 end Text
